@@ -4899,6 +4899,10 @@ class CiscoRange(UserList):
 
         for idx, _csv_part in enumerate(csv_parts):
 
+            # Only a hyphen between two numbers separates the ends of an
+            #     interval; 'Port-channel1-3' is ['Port-channel1', '3']
+            _pieces = re.split(r"(?<=\d)\s*-\s*(?=\d)", _csv_part)
+
             if debug is True:
                 logger.info(f"    CiscoRange() idx: {idx} for --> _csv_part: {_csv_part} <--")
 
@@ -4907,7 +4911,7 @@ class CiscoRange(UserList):
             ##################################################################
             if idx == 0:
                 # Set the begin_obj...
-                begin_obj = _result_type(_csv_part.split("-")[0])
+                begin_obj = _result_type(_pieces[0])
                 self.begin_obj = begin_obj
                 self.this_obj = _result_type(interface_dict=begin_obj.as_dict(), debug=debug)
                 intf_dict = begin_obj.as_dict()
@@ -4951,15 +4955,15 @@ class CiscoRange(UserList):
 
             if idx > 0:
                 if self.iterate_attribute == 'channel' and isinstance(begin_obj.channel, int):
-                    self.this_obj.channel = _result_type(_csv_part.split("-")[0].strip(), debug=debug).channel
+                    self.this_obj.channel = _result_type(_pieces[0].strip(), debug=debug).channel
                 elif self.iterate_attribute == 'subinterface' and isinstance(begin_obj.subinterface, int):
-                    self.this_obj.subinterface = _result_type(_csv_part.split("-")[0].strip(), debug=debug).subinterface
+                    self.this_obj.subinterface = _result_type(_pieces[0].strip(), debug=debug).subinterface
                 elif self.iterate_attribute == 'port' and isinstance(begin_obj.port, int):
-                    self.this_obj.port = _result_type(_csv_part.split("-")[0].strip(), debug=debug).port
+                    self.this_obj.port = _result_type(_pieces[0].strip(), debug=debug).port
                 elif self.iterate_attribute == 'card' and isinstance(begin_obj.card, int):
-                    self.this_obj.card = _result_type(_csv_part.split("-")[0].strip(), debug=debug).card
+                    self.this_obj.card = _result_type(_pieces[0].strip(), debug=debug).card
                 elif self.iterate_attribute == 'slot' and isinstance(begin_obj.card, int):
-                    self.this_obj.slot = _result_type(_csv_part.split("-")[0].strip(), debug=debug).slot
+                    self.this_obj.slot = _result_type(_pieces[0].strip(), debug=debug).slot
                 else:
                     raise NotImplementedError()
 
@@ -4979,14 +4983,14 @@ class CiscoRange(UserList):
             # Set the end_ordinal... keep this separate from begin_obj logic...
             if self.iterate_attribute is None:
                 raise ValueError()
-            if "-" in _csv_part:
-                if len(_csv_part.split("-")) == 2:
+            if len(_pieces) > 1:
+                if len(_pieces) == 2:
                     # Append a whole range of interfaces...
-                    obj = _result_type(_csv_part.split("-")[0].strip(), debug=debug)
+                    obj = _result_type(_pieces[0].strip(), debug=debug)
                     begin_ordinal = getattr(obj, self.iterate_attribute)
                     # parse end_ordinal from 'Eth1/2-4 multipoint'
                     #     ref: https://stackoverflow.com/a/1450900
-                    end_ordinal = int("".join(filter(str.isdigit, _csv_part.split("-")[1].strip())))
+                    end_ordinal = int("".join(filter(str.isdigit, _pieces[1].strip())))
                     if debug is True:
                         logger.info(f"CiscoRange(text={text}, debug=True) : end_ordinal={end_ordinal}")
                 else:
